@@ -239,6 +239,9 @@ DataVerdict(B, V, k, Z) ==
   ELSE LET inf == Inflate(s, Z) IN
        IF ~inf.ok THEN [r |-> "unspec", b |-> << >>]
        ELSE IF Len(inf.p) = V.dsizes[k] THEN [r |-> "ok", b |-> inf.p]
+       \* zlib's uncompress() inflates into a 1-byte dummy when the output buffer is empty and
+       \* cannot report the overflow reliably (a 1-byte payload "fits"): not specified
+       ELSE IF V.dsizes[k] = 0 THEN [r |-> "unspec", b |-> << >>]
        ELSE IF Len(inf.p) > V.dsizes[k] THEN [r |-> "CompressionError", b |-> << >>]   \* buffer too small
        ELSE [r |-> "CompressionWrongSize", b |-> << >>]
 
